@@ -7,8 +7,17 @@ for d in sorted(glob.glob("/verif/seeded/*/")):
     if n == "own" or not os.path.exists(d + "meta.json"): continue
     try: meta = json.load(open(d + "meta.json"))
     except Exception: meta = {}
-    ver = json.load(open(d + "verified.json")) if os.path.exists(d + "verified.json") else {}
+    ver = {}
+    if os.path.exists(d + "verified.json"):
+        raw = open(d + "verified.json").read()
+        try: ver = json.loads(raw)
+        except Exception:
+            import re          # (written by a shell script: a backslash in the quoted first line may be unescaped)
+            m1 = re.search(r'"check_exit":(\d+)', raw); m2 = re.search(r'"violation_lines":(\d+)', raw); m3 = re.search(r'"first_line":"(.*)"\}\s*$', raw, re.S)
+            ver = {"check_exit": int(m1.group(1)) if m1 else None, "violation_lines": int(m2.group(1)) if m2 else 0, "first_line": m3.group(1) if m3 else ""}
     res = json.load(open(d + "check_result.json")) if os.path.exists(d + "check_result.json") else None
+    # the later of the two runs counts (a seed that escaped at first is verified again after the check was extended)
+    if res and os.path.exists(d + "verified.json") and os.path.getmtime(d + "verified.json") > os.path.getmtime(d + "check_result.json"): res = None
     exit_code = res["exit"] if res else ver.get("check_exit")
     nv = res["violation_lines"] if res else ver.get("violation_lines")
     first = (res["first_line"] if res else ver.get("first_line", "")) or ""
